@@ -1,7 +1,7 @@
 /-!
 C27 — QUIC anti-amplification: executable model of the credit counter
 `lossState.antiAmplificationLimit` (quic/loss.go), of the datagram sizing of
-`Conn.maybeSend` (quic/conn_send.go) AS IT IS, and the wire monitor used by the
+`Conn.maybeSend` (quic/conn_send.go), and the wire monitor used by the
 V-tie. Core Lean only.
 
 Go `int` is modelled as unbounded `Int`; the theorems state the no-overflow
@@ -85,12 +85,15 @@ def recvTotal : List Op → Int
   | .recv n :: t => n + recvTotal t
   | _ :: t => recvTotal t
 
-/-! ## `Conn.maybeSend` datagram sizing, as it is (conn_send.go)
+/-! ## `Conn.maybeSend` datagram sizing (conn_send.go)
 
 The packet writer is reset to `maxSendSize()`, packets with `k` bytes in total are
 written, and if the datagram carries an ack-eliciting server Initial it is padded
-with zeros to `paddedInitialDatagramSize` AFTERWARDS (each pad byte is added to the
-Initial packet's `size`, so `packetSent` is charged the padded size). -/
+with zeros to `paddedInitialDatagramSize` afterwards (each pad byte is added to the
+Initial packet's `size`, so `packetSent` is charged the padded size). Since the repair of
+`padded-initial-exceeds-credit` a server only puts ack-eliciting frames into an Initial
+packet when `maxSendSize() ≥ paddedInitialDatagramSize`, so a padded datagram is only
+produced when the credit covers the padded size. -/
 
 /-- Size on the wire of a datagram whose packets take `k` bytes. -/
 def codeDatagramSize (k : Int) (pad : Bool) : Int := if pad then max k paddedInitial else k
@@ -101,10 +104,12 @@ inductive COp where
   | validate
 deriving Repr, DecidableEq
 
-/-- What the code guarantees before a send: not `ccBlocked`, and the packets fit the writer. -/
+/-- What the code guarantees before a send: not `ccBlocked`, the packets fit the writer, and a
+datagram that needs padding is only built when the writer has room for the padded size. -/
 def CPre (s : St) : COp → Prop
   | .recv n => 0 ≤ n
-  | .csend k _ => blocked s.credit = false ∧ 0 < k ∧ k ≤ maxSendSize s.credit maxDatagramSize
+  | .csend k pad => blocked s.credit = false ∧ 0 < k ∧ k ≤ maxSendSize s.credit maxDatagramSize ∧
+      (pad = true → paddedInitial ≤ maxSendSize s.credit maxDatagramSize)
   | .validate => True
 
 instance (s : St) (op : COp) : Decidable (CPre s op) := by
@@ -133,23 +138,6 @@ def crecvTotal : List COp → Int
   | .recv n :: t => n + crecvTotal t
   | _ :: t => crecvTotal t
 
-/-- The known-defect region: a padded datagram is sent while the credit is below the padded size. -/
-def padOvershoot (s : St) : COp → Bool
-  | .csend _ pad => pad && decide (s.credit < paddedInitial)
-  | _ => false
-
-def NoPadOvershoot : St → List COp → Prop
-  | _, [] => True
-  | s, op :: rest => padOvershoot s op = false ∧ NoPadOvershoot (cstep s op) rest
-
-/-- Bytes by which the sends of a history exceeded the credit available to them. -/
-def overshoot : St → List COp → Int
-  | _, [] => 0
-  | s, op :: rest =>
-    (match op with
-     | .csend k pad => if s.credit ≠ unlimited then max 0 (codeDatagramSize k pad - s.credit) else 0
-     | _ => 0) + overshoot (cstep s op) rest
-
 /-! ## Wire monitor (V-tie)
 
 Events observed on the fake network of the package's test rig, for ONE server
@@ -168,7 +156,8 @@ inductive Ev where
   /-- datagram of `n` bytes leaves for address `a`; `byConn`: written by `Conn.maybeSend`
       (otherwise by the endpoint: Retry, Version Negotiation, stateless reset, close);
       `c`: the real `antiAmplificationLimit` right after it was accounted;
-      `k`: bytes taken by the packets, i.e. `n` minus the zero padding after the last packet. -/
+      `k`: bytes taken by the packets, i.e. `n` minus the zero padding after the last packet
+      (informational: the monitor judges the size on the wire). -/
   | send (a : Nat) (n : Int) (byConn : Bool) (c : Int) (k : Int)
   /-- the connection's real credit was observed to have become unlimited. -/
   | validated
@@ -182,20 +171,13 @@ structure Mon where
   credit : Int
   recvd : Nat → Int
   sent : Nat → Int
-  over : Nat → Int          -- known-defect allowance: bytes by which padded Initials exceeded the credit
   hs : Nat → Bool
   validated : Nat → Bool
 
-def Mon.init : Mon := ⟨false, 0, 0, fun _ => 0, fun _ => 0, fun _ => 0, fun _ => false, fun _ => false⟩
+def Mon.init : Mon := ⟨false, 0, 0, fun _ => 0, fun _ => 0, fun _ => false, fun _ => false⟩
 
 def bump (f : Nat → Int) (a : Nat) (n : Int) : Nat → Int := fun x => if x = a then f x + n else f x
 def setB (f : Nat → Bool) (a : Nat) : Nat → Bool := fun x => if x = a then true else f x
-
-/-- The defect region on the wire: packets that did fit the credit (`k ≤ credit`, so the writer was
-sized correctly) zero-padded to the 1200-byte datagram with `128 ≤ credit < 1200`. -/
-def knownOvershoot (pre n k : Int) : Bool :=
-  decide (minPacketSize ≤ pre) && decide (0 < k) && decide (k ≤ pre) && decide (pre < n) &&
-  decide (n = paddedInitial)
 
 def mstep (m : Mon) : Ev → Except String Mon
   | .recv a n r hs =>
@@ -211,7 +193,7 @@ def mstep (m : Mon) : Ev → Except String Mon
       if !m.hasConn then .error "no-connection" else
       -- a connection only takes credit for datagrams from its own peer address
       if a = m.connAddr then .ok { m with credit := datagramReceived m.credit n } else .ok m
-  | .send a n byConn c k =>
+  | .send a n byConn c _k =>
     if n < 0 then .error "bad-size" else
     let m := { m with sent := bump m.sent a n }
     if byConn then
@@ -222,14 +204,12 @@ def mstep (m : Mon) : Ev → Except String Mon
       let post := packetSent pre n
       if post ≠ c then .error "credit-mismatch" else
       let m := { m with credit := post }
+      -- the precondition of the counter theorem, checked on the real send path
       if n ≤ maxSendSize pre maxDatagramSize then
-        if !m.validated a ∧ m.sent a > 3 * m.recvd a + m.over a then .error "amplification" else .ok m
-      else if knownOvershoot pre n k then
-        let m := { m with over := bump m.over a (n - pre) }
-        if !m.validated a ∧ m.sent a > 3 * m.recvd a + m.over a then .error "amplification" else .ok m
+        if !m.validated a ∧ m.sent a > 3 * m.recvd a then .error "amplification" else .ok m
       else .error "send-exceeds-credit"
     else
-      if !m.validated a ∧ m.sent a > 3 * m.recvd a + m.over a then .error "amplification" else .ok m
+      if !m.validated a ∧ m.sent a > 3 * m.recvd a then .error "amplification" else .ok m
   | .validated =>
     if !m.hasConn then .error "no-connection" else
     if !m.hs m.connAddr then .error "premature-validation" else
